@@ -61,9 +61,9 @@ def parseSizes (w : String) : List Nat :=
   else (w.splitOn "+").map (fun t => t.toNat?.getD 0)
 
 partial def cutLoop (sizes : Array Nat) (p : List Nat) (k : Nat) (acc : Array (List Nat)) : Array (List Nat) :=
-  let want := Nat.min (sizes[k % sizes.size]!) p.length
-  let acc := acc.push (p.take want)
-  let p := p.drop want
+  let piece := p.take (sizes[k % sizes.size]!)
+  let acc := acc.push piece
+  let p := p.drop piece.length
   if p.isEmpty then acc else cutLoop sizes p (k + 1) acc
 
 def cutChunks (w : String) (p : List Nat) : List (List Nat) :=
@@ -103,6 +103,11 @@ def textOpts (opts : String) (m : String) : TextOpts := Id.run do
         | _ => pure ()
     | _ => pure ()
   return o
+
+/-- Value of the (last) `zstd:long=N` option, 0 when absent. -/
+def zstdLong (opts : String) : Nat :=
+  (opts.splitOn ";").foldl (fun acc t =>
+    if t.startsWith "zstd:long=" then ((t.drop 10).toString.toNat?).getD acc else acc) 0
 
 def optStatuses (opts : String) : String :=
   if opts == "-" then "-" else ",".intercalate ((opts.splitOn ";").map fun _ => "ok")
@@ -191,11 +196,13 @@ def readerHalf (st : String) (dec want : List Nat) (codes : List Nat) : String :
     else
       s!" r=ok hdr=ok data=ok dec={sizeHash dec} eq={eq} ubytes={dec.length} rcodes={codesStr codes} rnames={namesStr codes} end=eof close=ok"
 
+/-- `archive_write_set_filter_option(a, "uuencode", …)` reaches only the first
+filter of that name (`archive_set_filter_option` returns after the first match). -/
 def encodeText (stack : List String) (opts : String) (bpb : Nat) (chunks : List (List Nat)) : List (List Nat) :=
-  stack.foldl (fun ch f =>
-    let o := textOpts opts f
+  (stack.foldl (fun (acc : List (List Nat) × List String) f =>
+    let o : TextOpts := if acc.2.contains f then {} else textOpts opts f
     let c := if f == "uuencode" then LA.Uu.codec else LA.B64.codec
-    (LA.LineFilter.run c bpb o.mode o.name (ch.filter (· ≠ []))).emitted) chunks
+    ((LA.LineFilter.run c bpb o.mode o.name (acc.1.filter (· ≠ []))).emitted, f :: acc.2)) (chunks, [])).1
 
 def stepLine (_ : Unit) (op obs : String) : Unit × String :=
   match LA.words op with
@@ -212,6 +219,10 @@ def stepLine (_ : Unit) (op obs : String) : Unit × String :=
         let (bl, layers, st) := peel (clientBlocks enc rbn) 0
         let dec := bl.flatten
         ((), whalf ++ s!" enc={sizeHash enc}{hx}" ++ readerHalf st dec p (List.replicate layers 7))
+      else if stack.contains "zstd" ∧ zstdLong opts > 27 ∧ !p.isEmpty then
+        -- known finding C03-zstd-long: the write filter accepts long=28..31 (documented range 10..31),
+        -- the read filter never raises ZSTD_d_windowLogMax above the library default (27)
+        ((), whalf ++ s!" enc={obsField obs "enc"} r=fatal hdr=- data=ok dec={sizeHash []} eq=0@0 ubytes=-1 rcodes=- rnames=- end=- close=ok")
       else
         ((), whalf ++ s!" enc={obsField obs "enc"}" ++ readerHalf "ok" p p codes)
     | _, _, _ => ((), "bad-op")
